@@ -34,8 +34,10 @@ RULE = ("K 2..4 users, 2..4 (thorough 2..6) antennas per node (square, "
         "filters are changed through a public setter, then a derived quantity "
         "is read again; (post) some user has >=2 streams or the antenna "
         "layout is not square-uniform or P is a vector; (mono) initial "
-        "leakage > 1e-3 of the unfiltered interference power.  distinct = "
-        "SHA-1 of the case description")
+        "leakage > 1e-3 of the unfiltered interference power and >= 3 "
+        "iterations observed (mono also forces a class K=2, N>=4, >=2 "
+        "streams in which an update needs several eigenvectors of a repeated "
+        "eigenvalue).  distinct = SHA-1 of the case description")
 LEVEL_TEXT = ("Generated-input search (Hypothesis, seeded, sharded) over "
               "channels, antenna/stream/power configurations, solver classes, "
               "initialisation modes and setter/read histories.  Oracles: the "
@@ -75,7 +77,8 @@ ASSUMPTIONS = [
     "the tests and the library itself use) and, as a labelled minority, "
     "plain lists (documented as accepted)",
 ]
-QUICK_BUDGET_S = 120
+QUICK_BUDGET_S = 300
+THOROUGH_BUDGET_S = 2400
 
 CLS_ALL = ["Base", "ClosedForm", "AltMin", "MinLeakage", "MaxSinr", "MMSE"]
 ITERATIVE = ["AltMin", "MinLeakage", "MaxSinr", "MMSE"]
@@ -180,6 +183,20 @@ def _post_case(draw, tier):
 def _mono_case(draw, tier):
     cls = draw(st.sampled_from(["AltMin", "MinLeakage"]))
     cfg = draw(_cfg(cls, tier, noise_free=True))
+    if cls == "AltMin" and draw(st.integers(0, 5)) == 0:
+        # forced class: few users, many antennas and streams, so that an
+        # update needs >= 2 eigenvectors of a repeated (zero) eigenvalue
+        N = draw(st.sampled_from([4, 4, 5, 6] if tier == "thorough" else [4]))
+        cfg = dict(cfg, K=2, Nr=[N, N], Nt=[N, N])
+        Ns = [draw(st.integers(2, N - 1)), draw(st.integers(1, N - 2))]
+        if draw(st.booleans()):
+            Ns = Ns[::-1]
+        return dict(part="mono", cls=cls, cfg=cfg, Ns=Ns,
+                    ns_form=draw(st.sampled_from(["list", "array"])),
+                    p_form=draw(st.sampled_from(["none", "scalar"])),
+                    pvals=draw(_pvals()), seed=draw(seeds),
+                    init=draw(st.sampled_from(["random", "random", "svd"])),
+                    steps=draw(st.integers(3, 10 if tier == "quick" else 40)))
     # (min-leakage with >= 2 streams and the svd start on rectangular
     # layouts are open findings, exercised by the post part: keep their
     # share small here so that the monotonicity search goes on behind them)
@@ -283,9 +300,9 @@ def _hist_case(draw, tier):
 
 
 PARTS = [
-    Part("post", _post_case, quick=2400, thorough=60000, quick_shards=8),
-    Part("mono", _mono_case, quick=900, thorough=16000, quick_shards=8),
-    Part("hist", _hist_case, quick=2400, thorough=60000, quick_shards=8),
+    Part("post", _post_case, quick=2400, thorough=40000, quick_shards=8),
+    Part("mono", _mono_case, quick=900, thorough=10000, quick_shards=8),
+    Part("hist", _hist_case, quick=2400, thorough=40000, quick_shards=8),
 ]
 
 
@@ -650,15 +667,37 @@ def _check_cost(ctx, solver, cls, cfg, H, Ns, tags):
 # ----------------------------------------------------------------------------
 # part: mono
 # ----------------------------------------------------------------------------
+def _eig_degenerate(cls, cfg, Ns):
+    """does an update ask leig/peig for >= 2 eigenvectors out of a repeated
+    (zero) eigenvalue?  Interference covariances have rank
+    min(N, sum of the other users' streams)."""
+    K = cfg["K"]
+    for k in range(K):
+        S = sum(Ns[l] for l in range(K) if l != k)
+        null_r = cfg["Nr"][k] - min(cfg["Nr"][k], S)
+        null_t = cfg["Nt"][k] - min(cfg["Nt"][k], S)
+        if Ns[k] >= 2 and null_t >= 2:          # precoder update
+            return True
+        if cls == "MinLeakage" and Ns[k] >= 2 and null_r >= 2:
+            return True
+        if cls == "AltMin" and \
+                (cfg["Nr"][k] - Ns[k]) - min(cfg["Nr"][k], S) >= 2:
+            return True                          # C_k: null vectors in peig
+    return False
+
+
 def _check_mono(case, ctx):
     cls, cfg, Ns = case["cls"], case["cfg"], [int(n) for n in case["Ns"]]
     K = cfg["K"]
     tags = _base_tags(cls, cfg, Ns, case["init"])
+    tags["eig_degenerate"] = _eig_degenerate(cls, cfg, Ns)
     ch, H = _build_channel(cfg)
     solver = _make_solver(cls, ch, case["seed"])
     p_arg, P_exp = _p_arg(case["p_form"], case["pvals"], K)
     ns_arg = _ns_arg(case["ns_form"], Ns)
     _label_cfg(ctx, cls, cfg, Ns)
+    if tags["eig_degenerate"]:
+        ctx.label("eig_degenerate")
     ctx.label("init=" + case["init"])
     solver.initialize_with = case["init"]
     solver.max_iterations = 1
@@ -679,18 +718,21 @@ def _check_mono(case, ctx):
     ctx.label("leak0>1e-3" if leak0 > 1e-3 * scale else "leak0_small")
     ctx.nontrivial(leak0 > 1e-3 * scale and len(seq) >= 3)
     for i in range(1, len(seq)):
-        c0, l0, _ = seq[i - 1]
-        c1, l1, _ = seq[i]
+        c0, l0, s0 = seq[i - 1]
+        c1, l1, s1 = seq[i]
         t = dict(tags, step=i)
-        ctx.err("cost_increase", max(0.0, c1 - c0) / scale, 1e-13)
-        if c1 > c0 * (1 + 1e-9) + 1e-13 * scale:
+        # rounding of both evaluations: eps * (unfiltered interference power)
+        sc = max(s0, s1)
+        if c1 > c0 * (1 + 1e-9) + 1e-13 * sc:
             raise Violation("cost_increased",
                             "get_cost %.12e -> %.12e at iteration %d "
-                            "(unfiltered %.3e)" % (c0, c1, i, scale), t)
-        if equal and l1 > l0 * (1 + 1e-9) + 1e-13 * scale:
+                            "(unfiltered %.3e)" % (c0, c1, i, sc), t)
+        if equal and l1 > l0 * (1 + 1e-9) + 1e-13 * sc:
             raise Violation("leak_increased",
                             "leaked power %.12e -> %.12e at iteration %d "
-                            "(unfiltered %.3e)" % (l0, l1, i, scale), t)
+                            "(unfiltered %.3e)" % (l0, l1, i, sc), t)
+        ctx.err("cost_increase", max(0.0, c1 - c0, l1 - l0 if equal else 0.0)
+                / sc, 1e-13)
     if seq[-1][1] < 0.5 * leak0:
         ctx.label("leak_halved")
 
